@@ -9,6 +9,8 @@ From TG.Proofs Require Import TreeNavProofs DocProofs OutlineProofs.
 From TG.Gen Require Import GenHandlers.
 From TG.Model Require Import HandlerApi.
 From TG.Proofs Require Import GenHandlersEq.
+From TG.Model Require Import HandlerSymApi.
+From TG.Proofs Require Import GenHandlersSymEq.
 Import ListNotations.
 Open Scope N_scope.
 
@@ -314,3 +316,49 @@ Check C19_source_doc : forall root lo hi, covering_element root lo hi <> None ->
     | None => Done None
     end.
 Print Assumptions C19_source_doc.
+
+(** ... and the same for the inlay hints: the rendering of handlers/inlay_hint.rs `inlay_hint_record_field`, `inlay_hint_class`
+    and `exec` equals the hand models of Outline.v (an absent `Option<Vec<_>>` is the empty list of the model: [olist]).
+    `exec`: in every symbol-map state whose record-field arena holds record fields ([fields_kinded]: true of every replayed
+    state, last conjunct) and for every range whose symbols lie inside their file (rowan's contract for `covering_element`).
+    Iterator adaptors with a panicking closure are rendered eagerly (see design/notes-translator-handlers.md). *)
+Theorem C19_inlay_model_is_source :
+  (forall M trees fld loc,
+     outcome_map olist (src_inlay_hint_record_field (mkIdb M trees) fld loc) =
+       match covering_element (trees (fr_file loc)) (fr_lo loc) (fr_hi loc) with
+       | None => Panicked
+       | Some _ => Done (inlay_hint_record_field (trees (fr_file loc)) (en_typ fld) (fr_lo loc) (fr_hi loc))
+       end) /\
+  (forall M trees cls loc,
+     outcome_map olist (src_inlay_hint_class (mkIdb M trees) M cls loc) =
+       match covering_element (trees (fr_file loc)) (fr_lo loc) (fr_hi loc) with
+       | None => Panicked
+       | Some _ => outcome_of_sres (inlay_hint_class M (trees (fr_file loc)) (p_targs (e_payload cls)) (fr_lo loc) (fr_hi loc))
+       end) /\
+  (forall M trees loc, fields_kinded M ->
+     (forall l, iter_symbols_in_range M loc = SOk (Some l) ->
+        Forall (fun x : file_range * symbol_id =>
+                  covering_element (trees (fr_file loc)) (fr_lo (fst x)) (fr_hi (fst x)) <> None) l) ->
+     src_inlay_hint_exec (mkIdb M trees) loc = outcome_of_sres (inlay_hint M (fun f => Some (trees f)) loc)) /\
+  (forall ops M, run_ops ops = SOk M -> fields_kinded M).
+Proof. exact c19_inlay_model_is_source. Qed.
+Check C19_inlay_model_is_source :
+  (forall M trees fld loc,
+     outcome_map olist (src_inlay_hint_record_field (mkIdb M trees) fld loc) =
+       match covering_element (trees (fr_file loc)) (fr_lo loc) (fr_hi loc) with
+       | None => Panicked
+       | Some _ => Done (inlay_hint_record_field (trees (fr_file loc)) (en_typ fld) (fr_lo loc) (fr_hi loc))
+       end) /\
+  (forall M trees cls loc,
+     outcome_map olist (src_inlay_hint_class (mkIdb M trees) M cls loc) =
+       match covering_element (trees (fr_file loc)) (fr_lo loc) (fr_hi loc) with
+       | None => Panicked
+       | Some _ => outcome_of_sres (inlay_hint_class M (trees (fr_file loc)) (p_targs (e_payload cls)) (fr_lo loc) (fr_hi loc))
+       end) /\
+  (forall M trees loc, fields_kinded M ->
+     (forall l, iter_symbols_in_range M loc = SOk (Some l) ->
+        Forall (fun x : file_range * symbol_id =>
+                  covering_element (trees (fr_file loc)) (fr_lo (fst x)) (fr_hi (fst x)) <> None) l) ->
+     src_inlay_hint_exec (mkIdb M trees) loc = outcome_of_sres (inlay_hint M (fun f => Some (trees f)) loc)) /\
+  (forall ops M, run_ops ops = SOk M -> fields_kinded M).
+Print Assumptions C19_inlay_model_is_source.
